@@ -320,3 +320,79 @@ Proof.
   pose proof (hist_G c ispadding T ls i HT Hi (m ls) (le_n _)) as H.
   unfold G in H. rewrite firstn_all in H. rewrite H. reflexivity.
 Qed.
+
+(* ================= non-vacuity: the hypotheses of the lemmas above are satisfiable ================= *)
+Module NonVacuity.
+Definition S0 := (N * N)%type.
+Definition inp : list N := map (fun i => N.of_nat ((i * 7 + 3) mod 256)) (seq 0 40).
+Definition ls0 : list load := loads_of 1 true inp.            (* three one-block chunks, the last one FINAL *)
+Definition s_init := init S0 2 (tag_init 2) ls0.
+Definition full : list nat :=
+  [0; 1; 2; 2; 0; 1; 0; 0; 0; 1; 1; 1; 1; 0; 0; 1; 0; 0; 0; 0; 0; 0; 2;
+   2; 0; 2; 0; 1; 0; 2; 2; 1; 0; 0; 0; 0; 1; 1; 0; 1; 0; 2; 0; 0; 2; 0;
+   0; 0; 0; 1; 1; 0].
+Notation run0 := (run S0 tag_tr tag_event 1 true).
+
+Example ex_wf : 1 <= 2 /\ length (tag_init 2) = 2 /\ wf_loads ls0.
+Proof.
+  split; [lia|]. split; [reflexivity|]. unfold wf_loads. split; [discriminate|]. split.
+  - vm_compute. repeat constructor.
+  - intros i Hi. change (length ls0) with 3 in *.
+    destruct i as [|[|[|i]]]; try lia; vm_compute; reflexivity.
+Qed.
+Example ex_all_ok : all_ok (snd (seq_chunks S0 tag_tr 1 true 2 (tag_init 2) 0 ls0)).
+Proof. vm_compute. repeat constructor; eexists; reflexivity. Qed.
+
+(* C03 / pipeline_end_state: a complete run *)
+Example ex_terminal : exists s, run0 s_init full = Some s /\ terminal S0 s = true /\ length (output S0 s) = 3.
+Proof. vm_compute. eexists. repeat split. Qed.
+(* C04_deadlock_free: a reachable non-terminal state *)
+Example ex_not_terminal : exists s, run0 s_init (firstn 20 full) = Some s /\ terminal S0 s = false.
+Proof. vm_compute. eexists. split; reflexivity. Qed.
+(* C14_exclusive_hand_over: reachable states where the worker resp. the I/O thread touches buffer 0 *)
+Example ex_worker_touches : exists s, run0 s_init [0; 0; 0; 0; 1; 1] = Some s /\ worker_touches S0 s 0 /\ 0 < 2.
+Proof. vm_compute. eexists. split; [reflexivity|]. split; [left; reflexivity|lia]. Qed.
+Example ex_io_owns : exists s, run0 s_init [0] = Some s /\ io_owns S0 s 0.
+Proof. vm_compute. eexists. split; [reflexivity|]. split; [reflexivity|exact I]. Qed.
+(* C14_token_moves: steps that move the token (I/O thread: EMPTY -> READY; worker: READY -> UPDATING) *)
+Definition moves (sched : list nat) (tid i : nat) : bool :=
+  match run0 s_init sched with
+  | Some s => match step S0 tag_tr tag_event 1 true s tid with
+              | Some (s', _) => negb (bst_eqb (b_st (getb S0 s' i)) (b_st (getb S0 s i)))
+              | None => false
+              end
+  | None => false
+  end.
+Lemma moves_spec sched tid i : moves sched tid i = true ->
+  exists s s' evs, run0 s_init sched = Some s /\
+    step S0 tag_tr tag_event 1 true s tid = Some (s', evs) /\ b_st (getb S0 s' i) <> b_st (getb S0 s i).
+Proof.
+  unfold moves. destruct (run0 s_init sched) as [s|]; [|discriminate].
+  destruct (step S0 tag_tr tag_event 1 true s tid) as [[s' evs]|] eqn:E2; [|discriminate].
+  intros H. exists s, s', evs. split; [reflexivity|]. split; [exact E2|].
+  intros E. rewrite E in H. destruct (b_st (getb S0 s i)); discriminate.
+Qed.
+Example ex_token_io : exists s s' evs, run0 s_init [0; 0; 0] = Some s /\
+  step S0 tag_tr tag_event 1 true s 0 = Some (s', evs) /\ b_st (getb S0 s' 0) <> b_st (getb S0 s 0).
+Proof. apply moves_spec. vm_compute. reflexivity. Qed.
+(* tid 1 = worker 0; this step also writes no other buffer (C14_workers_touch_only_their_buffer, j = 1 <> 0) *)
+Example ex_token_worker : exists s s' evs, run0 s_init [0; 0; 0; 0; 1; 1; 1; 1] = Some s /\
+  step S0 tag_tr tag_event 1 true s 1 = Some (s', evs) /\ b_st (getb S0 s' 0) <> b_st (getb S0 s 0).
+Proof. apply moves_spec. vm_compute. reflexivity. Qed.
+(* C04_no_lost_wakeup: reachable states with a sleeping worker resp. a sleeping I/O thread *)
+Example ex_worker_asleep : exists s, run0 s_init [1; 1] = Some s /\ getw S0 s 0 = W_Asleep true.
+Proof. vm_compute. eexists. split; reflexivity. Qed.
+Example ex_io_asleep : exists s, run0 s_init (repeat 0 11) = Some s /\ io S0 s = I_Asleep.
+Proof. vm_compute. eexists. split; reflexivity. Qed.
+
+(* C03_each_block_exactly_once_by_its_owner: the history instance on the same input and schedule *)
+Example ex_hist : wf_loads ls0 /\
+  all_ok (snd (seq_chunks (list (list N)) hist_tr 1 true 2 (repeat [] 2) 0 ls0)) /\
+  exists s, run (list (list N)) hist_tr (fun _ _ => []) 1 true (init (list (list N)) 2 (repeat [] 2) ls0) full = Some s /\
+            terminal (list (list N)) s = true /\ length (nth 0 (wsts (list (list N)) s) []) = 2.
+Proof.
+  split; [apply ex_wf|]. split.
+  - vm_compute. repeat constructor; eexists; reflexivity.
+  - vm_compute. eexists. repeat split.
+Qed.
+End NonVacuity.
